@@ -2059,13 +2059,32 @@ pub fn c15(args: &Args) -> Report {
 
 const SEAL_FILES: [(&str, u64); 4] = [("s1", 1), ("s12288", 12288), ("s0", 0), ("s5000", 5000)];
 
+/// worlds built while this is set carry the append-only inode attribute (chattr +a) on every sealed file: an
+/// environment in which fcntl(F_SETFL) that would clear O_APPEND fails with EPERM
+static SEAL_APPEND_ONLY: std::sync::atomic::AtomicBool = std::sync::atomic::AtomicBool::new(false);
+const FS_IOC_GETFLAGS: libc::c_ulong = 0x8008_6601;
+const FS_IOC_SETFLAGS: libc::c_ulong = 0x4008_6602;
+const FS_APPEND_FL: libc::c_long = 0x20;
+
+fn set_append_only(path: &std::path::Path, on: bool) -> bool {
+    let Ok(f) = std::fs::File::open(path) else { return false };
+    let mut fl: libc::c_long = 0;
+    unsafe {
+        if libc::ioctl(f.as_raw_fd(), FS_IOC_GETFLAGS as _, &mut fl) != 0 {
+            return false;
+        }
+        let nf = if on { fl | FS_APPEND_FL } else { fl & !FS_APPEND_FL };
+        libc::ioctl(f.as_raw_fd(), FS_IOC_SETFLAGS as _, &nf) == 0
+    }
+}
+
 #[derive(Clone, Copy, Debug, PartialEq, Eq, Hash)]
 pub enum SOp {
     /// open(file, access 0..3, extra flag 0 none / 1 O_APPEND / 2 O_TRUNC)
     Open(usize, u8, u8),
     /// create on the existing name (flags: 0 O_RDWR, 1 O_RDWR|O_TRUNC, 2 O_WRONLY|O_TRUNC|O_APPEND, 3 O_RDWR|O_EXCL)
     Create(usize, u8),
-    /// write(offset kind 0: 0, 1: size-1, 2: size, 3: size+1; len; request flags 0: as opened, 1: |O_APPEND; write_flags)
+    /// write(offset kind 0: 0, 1: size-1, 2: size, 3: size+1; len; request flags 0: as opened, 1: |O_APPEND, 2: O_APPEND removed; write_flags)
     Write(u8, u8, u8, u8),
     /// setattr kinds: 0 size 0, 1 same size, 2 size+1, 3 mode, 4 times
     Setattr(usize, u8, bool),
@@ -2133,6 +2152,17 @@ pub struct SealWorld {
     handles: Vec<SealH>,
     pub problems: Vec<(String, String)>,
     nodes: BTreeMap<usize, u64>,
+    append_only: bool,
+}
+
+impl Drop for SealWorld {
+    fn drop(&mut self) {
+        if self.append_only {
+            for (n, _) in SEAL_FILES {
+                set_append_only(&self.w.exp.join(n), false);
+            }
+        }
+    }
 }
 
 impl SealWorld {
@@ -2142,7 +2172,13 @@ impl SealWorld {
             let data: Vec<u8> = (0..sz).map(|i| b'A' + (i % 23) as u8).collect();
             std::fs::write(w.exp.join(n), &data).unwrap();
         }
-        SealWorld { w, handles: Vec::new(), problems: Vec::new(), nodes: BTreeMap::new() }
+        let append_only = SEAL_APPEND_ONLY.load(std::sync::atomic::Ordering::Relaxed);
+        if append_only {
+            for (n, _) in SEAL_FILES {
+                set_append_only(&w.exp.join(n), true);
+            }
+        }
+        SealWorld { w, handles: Vec::new(), problems: Vec::new(), nodes: BTreeMap::new(), append_only }
     }
 
     fn node(&mut self, cl: &mut Client, f: usize) -> Option<u64> {
@@ -2207,7 +2243,11 @@ impl SealWorld {
                     2 => size,
                     _ => size + 1,
                 };
-                let flags = h.flags | if rf == 1 { libc::O_APPEND } else { 0 };
+                let flags = match rf {
+                    1 => h.flags | libc::O_APPEND,
+                    2 => h.flags & !libc::O_APPEND,
+                    _ => h.flags,
+                };
                 let data = &b"##"[..len as usize];
                 let (node, fh) = (h.node, h.fh);
                 Some(match cl.write(&self.w.subj, node, fh, off, data, flags as u32, wf as u32) {
@@ -2281,7 +2321,7 @@ impl SealWorld {
                         let detail = match op {
                             SOp::Open(_, _, extra) => format!("flag-{}", ["none", "O_APPEND", "O_TRUNC"][*extra as usize]),
                             SOp::Create(_, c) => format!("flags-{}", ["O_RDWR", "O_TRUNC", "O_TRUNC+O_APPEND", "O_EXCL"][*c as usize]),
-                            SOp::Write(_, _, rf, wf) => format!("request-flags-{}-write-flags-{}", if *rf == 1 { "O_APPEND" } else { "as-opened" }, wf),
+                            SOp::Write(_, _, rf, wf) => format!("request-flags-{}-write-flags-{}", ["as-opened", "O_APPEND", "O_APPEND-removed"][*rf as usize], wf),
                             SOp::Fallocate(mm, _) => format!("mode-{:#x}", SEAL_FALLOC[*mm as usize]),
                             SOp::Setattr(_, kd, fh) => format!("kind-{}-fh-{}", kd, fh),
                             SOp::Release => "".into(),
@@ -2426,6 +2466,37 @@ pub fn c18(args: &Args) -> Report {
             }
             idx += 1;
         }
+    }
+    // family append-only: every sealed file carries the append-only inode attribute, so that the fcntl(F_SETFL) which
+    // would take a handle out of append mode fails (EPERM): [open in append mode, write, write] with the request flags
+    // as opened, with O_APPEND, and with O_APPEND removed
+    {
+        let mut writes: Vec<SOp> = Vec::new();
+        for off in 0..4u8 {
+            for len in 1..3u8 {
+                for rf in 0..3u8 {
+                    writes.push(SOp::Write(off, len, rf, 0));
+                }
+            }
+        }
+        SEAL_APPEND_ONLY.store(true, std::sync::atomic::Ordering::Relaxed);
+        let probe = SealWorld::new(&b, &mut run.cl);
+        let supported = set_append_only(&probe.w.exp.join(SEAL_FILES[0].0), true);
+        drop(probe);
+        run.rep.set("append_only_attribute_supported", json!(supported));
+        for f in 0..2usize {
+            for acc in [1u8, 2] {
+                for w1 in &writes {
+                    if run.rep.mine(idx) && supported && !run.rep.over_budget() {
+                        for w2 in writes.iter().filter(|w| matches!(w, SOp::Write(_, _, rf, _) if *rf != 1)) {
+                            run.c18_seq(&b, &[SOp::Open(f, acc, 1), *w1, *w2]);
+                        }
+                    }
+                    idx += 1;
+                }
+            }
+        }
+        SEAL_APPEND_ONLY.store(false, std::sync::atomic::Ordering::Relaxed);
     }
     rep.set("units_all_shards", json!(idx));
     rep.set("depth", json!(depth));
